@@ -337,6 +337,10 @@ fn main_seq_inner(dispatch: Dispatch, args: Vec<String>) {
             }
             writeln!(out, "B {} {} {}", c.id, mode.name(), i).unwrap();
             out.flush().unwrap();
+            if mode == Mode::Indented {
+                // marks the start of this case's trace on stderr (the tracer of the library writes there)
+                eprintln!("@@CASE {}", c.id);
+            }
             if !dispatch(c.gidx, &c.rule, mode, &buf, c.budget) {
                 logline(|l| l.push_str("R nodispatch"));
             }
